@@ -127,7 +127,9 @@ CLAIMED["C02"] = dict(
     "(field indices come from felupe's own Field._indices_per_cell) and the 2 pi R weight / hoop terms on the radial component.",
     design_ref="DESIGN.md section 3, C02",
     note="Trusted: scipy.sparse duplicate summation, bmat/vstack (summarised); einsumt == einsum; the defining sums in "
-    "fverif/props/c02.py. Not yet covered: the Form expression API (O9) and the thread-discipline lint (O8.ii); the value-type "
+    "fverif/props/c02.py; BasisArray (ndarray subclass) replaced by a checker-side twin. The Form expression API (O9: bilinear / linear / "
+    "mixed forms, all parallel x sym combinations, re-assembly on other fields) and the thread discipline (O8.ii: recording Thread stand-in, "
+    "single writer per slot of the shared buffer, all threads joined) are covered by fverif/props/c02_expr.py. The value-type "
     "axisymmetric linear form with a 3-component integrand is not specified by the property and not checked.",
     technique="algebraic value numbering of the assembly kernels on a symbolic micro-instance; comparison with defining sums",
 )
